@@ -334,6 +334,8 @@ struct Scan<'a> {
     main: Vec<(Kind, String)>,
     ctrl: Vec<(Kind, String)>,
     visited: BTreeSet<(String, String)>,
+    /// the type whose method body is being scanned (`self.<m>()` resolves against it)
+    cur_ty: String,
     site: String,
     err: Option<String>,
 }
@@ -352,6 +354,7 @@ impl<'a> Scan<'a> {
             return true;
         }
         let saved_site = self.site.clone();
+        let saved_ty = std::mem::replace(&mut self.cur_ty, ty.to_string());
         let saved_main = self.main_recv.clone();
         let saved_ctrl = self.ctrl_recv.clone();
         if let Some((name, is_ctrl)) = bind_buf {
@@ -366,6 +369,7 @@ impl<'a> Scan<'a> {
             self.visit_block(&f.block);
         }
         self.site = saved_site;
+        self.cur_ty = saved_ty;
         self.main_recv = saved_main;
         self.ctrl_recv = saved_ctrl;
         true
@@ -397,8 +401,8 @@ impl<'a, 'ast> Visit<'ast> for Scan<'a> {
         } else if is_range_name(&name) {
             self.fail(format!("{}: range-kind call `{recv}.{name}()` on an unrecognised receiver in {}", self.op, self.site));
         } else if recv == "self" {
-            let op = self.op.clone();
-            if !self.scan_helper(&op, &name, None) {
+            let ty = self.cur_ty.clone();
+            if !self.scan_helper(&ty, &name, None) {
                 self.fail(format!("{}: cannot resolve helper `self.{name}()` in {}", self.op, self.site));
             }
         } else if recv == "self.header" {
@@ -523,6 +527,7 @@ fn scan_impl(im: &syn::ItemImpl, driver: &'static str, file: &'static str, helpe
         main: vec![],
         ctrl: vec![],
         visited: BTreeSet::new(),
+        cur_ty: op.clone(),
         site: String::new(),
         err: None,
     };
